@@ -19,7 +19,7 @@ fn gen_payload_len(ctx: &mut Ctx, stratum: Option<usize>) -> usize {
     match ctx.choose("plen_class", 8) {
         0 | 1 => ctx.choose("plen_small", 64) as usize,
         2 => {
-            const B: [usize; 22] = [0, 1, 2, 0x7b, 0x7c, 0x7f, 0x80, 0xff, 0x100, 1460, 4096, 16383, 16384, 65529, 65530, 65531, 65532, 65533, 65535, 65536, 69999, 70000];
+            const B: [usize; 34] = [0, 1, 2, 0x7b, 0x7c, 0x7f, 0x80, 0xff, 0x100, 1460, 4096, 16379, 16380, 16381, 16382, 16383, 16384, 16385, 32763, 32764, 32768, 49148, 49152, 8188, 8192, 65529, 65530, 65531, 65532, 65533, 65535, 65536, 69999, 70000];
             B[ctx.choose("plen_b", B.len() as u64) as usize]
         }
         3 => 65500 + ctx.choose("plen_edge", 100) as usize,
@@ -43,7 +43,7 @@ struct Plan {
 fn gen_plan(ctx: &mut Ctx, total_hint: usize) -> Plan {
     let mut cfg = NetCfg::benign();
     let big = total_hint > 4096;
-    let m = ctx.choose("write_mode", 5);
+    let m = ctx.choose("write_mode", 6);
     cfg.write_mode = match m {
         0 => WriteMode::Whole,
         1 => {
@@ -55,7 +55,8 @@ fn gen_plan(ctx: &mut Ctx, total_hint: usize) -> Plan {
         3 => {
             if big { WriteMode::Cap(300 + ctx.choose("cap", 2000) as usize) } else { WriteMode::Random }
         }
-        _ => WriteMode::Cap(1 + ctx.choose("cap_n", (total_hint as u64).max(1)) as usize),
+        4 => WriteMode::Cap(1 + ctx.choose("cap_n", (total_hint as u64).max(1)) as usize),
+        _ => WriteMode::Bursty,
     };
     ctx.key_add(m);
     // fault family: 0 none (benign short writes only), 1 EINTR, 2 zero-then-progress, 3 error at byte p
@@ -78,7 +79,8 @@ fn gen_plan(ctx: &mut Ctx, total_hint: usize) -> Plan {
                 _ => total_hint.saturating_sub(ctx.choose("err_pos_tail", 4) as usize),
             };
             cfg.write_fail_at = Some(p);
-            cfg.write_fail_kind = *ctx.pick("err_kind", &[ErrorKind::BrokenPipe, ErrorKind::ConnectionReset, ErrorKind::Other, ErrorKind::WouldBlock, ErrorKind::ConnectionAborted]);
+            cfg.write_fail_kind = *ctx.pick("err_kind", &[ErrorKind::BrokenPipe, ErrorKind::ConnectionReset, ErrorKind::Other, ErrorKind::WouldBlock, ErrorKind::ConnectionAborted, ErrorKind::TimedOut]);
+            cfg.write_fail_transient = ctx.chance("err_transient", 1, 2);
             ctx.key_add(if p < 8 { p as u64 } else { 8 });
             Plan { cfg, harmful: true, fault_name: "write_error" }
         }
